@@ -25,7 +25,7 @@ void hx_crash_dump(const char *why) {
         if (f) { hx_case_write(f, hx_current_case); fclose(f); }
     }
     fflush(stdout);
-    printf("CRASH {\"why\":\"%s\",\"case\":%lld,\"file\":\"%s\"}\n", why, hx_current_case ? (long long) hx_current_case->id : -1LL, path);
+    printf("\nCRASH {\"why\":\"%s\",\"case\":%lld,\"file\":\"%s\"}\n", why, hx_current_case ? (long long) hx_current_case->id : -1LL, path);
     fflush(stdout);
 }
 
